@@ -954,3 +954,110 @@ Section Cover.
   Theorem mpcc_working_copy_empty u v : adj (fst (greedy ms (g_edges g) (mpcc_order sh))) u v = false.
   Proof. apply (working_copy_empty g ms _ (proj1 (valid_graph_spec g) Hg) Hms sched_good). Qed.
 End Cover.
+
+(* ================================================================== 12. what any labelling accepted by the checker enjoys *)
+Lemma SimpleP_tail e t : SimpleP (e :: t) -> SimpleP t.
+Proof.
+  intros [H1 H2]. inversion H2; subst. split; auto. intros x Hx. apply H1. cbn; auto.
+Qed.
+
+Lemma simple_rows_unique (rows : list row) ea x eb y :
+  SimpleP (map fst rows) -> In (ea, x) rows -> In (eb, y) rows -> eqe ea eb = true -> (ea, x) = (eb, y).
+Proof.
+  induction rows as [|r t IH]; cbn [map]; intros S Ha Hb E; [inversion Ha|].
+  pose proof (SimpleP_tail _ _ S) as St. destruct S as [_ FO]. inversion FO as [|? ? F _]; subst.
+  rewrite Forall_forall in F.
+  destruct Ha as [Ha|Ha], Hb as [Hb|Hb].
+  - congruence.
+  - subst r. cbn in F. assert (X : eqe ea eb = false) by (apply F; apply in_map_iff; exists (eb, y); auto).
+    congruence.
+  - subst r. cbn in F. assert (X : eqe eb ea = false) by (apply F; apply in_map_iff; exists (ea, x); auto).
+    rewrite eqe_sym in X. congruence.
+  - auto.
+Qed.
+
+Lemma inpair_length c u v : inpair c u v -> 2 <= length c.
+Proof.
+  intros [Hu [Hv Hn]]. destruct c as [|a [|b t]]; cbn in *; try tauto; try lia.
+Qed.
+
+Section SpecFacts.
+  Variable g : graph.
+  Variable ms : nat.
+  Variable o : obs.
+  Hypothesis Hg : ValidGraph g.
+  Hypothesis S : Spec g ms o.
+  Let rows := o_rows o.
+
+  (* an edge carries one label only *)
+  Lemma spec_row_unique u v l1 l2 : has_row rows u v l1 -> has_row rows u v l2 -> l1 = l2.
+  Proof.
+    intros [e1 [H1 E1]] [e2 [H2 E2]].
+    assert (E : eqe e1 e2 = true) by (eapply eqe_trans; [rewrite eqe_sym; exact E1|exact E2]).
+    pose proof (simple_rows_unique rows _ _ _ _ (sp_simple _ _ _ S) H1 H2 E) as X. congruence.
+  Qed.
+
+  (* every edge of g carries exactly one label *)
+  Theorem spec_edge_label u v : adj (g_edges g) u v = true ->
+    exists l, has_row rows u v l /\ forall l', has_row rows u v l' -> l' = l.
+  Proof.
+    intros A. rewrite <- (sp_edges _ _ _ S) in A. apply adj_spec in A. destruct A as [e [He E]].
+    apply in_map_iff in He. destruct He as [[e' ol] [<- Hr]]. cbn in E.
+    destruct ol as [l|]; [|exfalso; exact (sp_labelled _ _ _ S _ Hr)].
+    exists l. split; [exists e'; auto|]. intros l' H'. eapply spec_row_unique; eauto. exists e'; auto.
+  Qed.
+
+  Lemma spec_label_big e l : In (e, Some l) rows ->
+    inpair (lab_mem l) (fst e) (snd e) /\ 2 <= length (lab_mem l).
+  Proof.
+    intros H. destruct (sp_label _ _ _ S e l H) as [_ [_ [_ R]]].
+    assert (P : inpair (lab_mem l) (fst e) (snd e)).
+    { apply R. exists e. split; auto. destruct e; apply eqe_refl. }
+    split; auto. eapply inpair_length; eauto.
+  Qed.
+
+  Lemma spec_has_row_adj u v l : has_row rows u v l -> adj (g_edges g) u v = true.
+  Proof.
+    intros [e [H E]]. rewrite <- (sp_edges _ _ _ S). apply adj_spec. exists e. split; auto.
+    apply in_map_iff. exists (e, Some l). auto.
+  Qed.
+
+  (* the member list of every label is a clique of g *)
+  Theorem spec_label_clique e l : In (e, Some l) rows -> CliqueP g (lab_mem l).
+  Proof.
+    intros H. destruct (sp_label _ _ _ S e l H) as [_ [ND [_ R]]].
+    destruct (spec_label_big e l H) as [[Hu [Hv Hn]] _].
+    assert (Adj : forall a b, inpair (lab_mem l) a b -> adj (g_edges g) a b = true).
+    { intros a b Hab. apply (spec_has_row_adj a b l). apply R. exact Hab. }
+    split; auto. split; auto.
+    intros x Hx. destruct Hg as [_ [_ Ends]].
+    assert (exists y, inpair (lab_mem l) x y) as [y Hxy].
+    { destruct (Nat.eq_dec x (fst e)) as [->|N]; [exists (snd e)|exists (fst e)]; split; auto. }
+    pose proof (Adj x y Hxy) as A. apply adj_spec in A. destruct A as [e' [He' E']].
+    destruct (Ends e' He') as [E1 E2]. apply eqe_pair in E'. destruct E' as [->| ->]; cbn in *; auto.
+  Qed.
+
+  (* two different labels are edge-disjoint cliques: the labels partition the edges *)
+  Theorem spec_labels_disjoint e1 l1 e2 l2 :
+    In (e1, Some l1) rows -> In (e2, Some l2) rows -> l1 <> l2 ->
+    forall u v, inpair (lab_mem l1) u v -> ~ inpair (lab_mem l2) u v.
+  Proof.
+    intros H1 H2 N u v P1 P2.
+    destruct (sp_label _ _ _ S e1 l1 H1) as [_ [_ [_ R1]]].
+    destruct (sp_label _ _ _ S e2 l2 H2) as [_ [_ [_ R2]]].
+    apply N. apply (spec_row_unique u v); [apply R1|apply R2]; auto.
+  Qed.
+
+  (* a clique has one id only *)
+  Theorem spec_one_id_per_clique e1 l1 e2 l2 :
+    In (e1, Some l1) rows -> In (e2, Some l2) rows ->
+    (forall x, In x (lab_mem l1) <-> In x (lab_mem l2)) -> l1 = l2.
+  Proof.
+    intros H1 H2 Hset.
+    destruct (sp_label _ _ _ S e1 l1 H1) as [_ [_ [_ R1]]].
+    destruct (sp_label _ _ _ S e2 l2 H2) as [_ [_ [_ R2]]].
+    destruct (spec_label_big e1 l1 H1) as [P _].
+    apply (spec_row_unique (fst e1) (snd e1)); [apply R1; auto|apply R2].
+    apply (proj1 (inpair_seteq _ _ _ _ Hset)). exact P.
+  Qed.
+End SpecFacts.
